@@ -72,6 +72,7 @@ static unsigned vp_nameidx[VP_NF];
 #define VP_IS_TE(k) ((k) == 2 || (k) == 4)
 #define VP_HAS_CL (VP_IS_CL(VP_K0) || VP_IS_CL(VP_K1) || VP_IS_CL(VP_K2))
 #define VP_HAS_TE (VP_IS_TE(VP_K0) || VP_IS_TE(VP_K1) || VP_IS_TE(VP_K2))
+#define VP_NUM_TE (VP_IS_TE(VP_K0) + VP_IS_TE(VP_K1) + VP_IS_TE(VP_K2))
 
 /* KF_CL_SYNTAX: a Content-Length value that is not 1*DIGIT but that strtoll() converts completely:
  * optional isspace() bytes (only VT / FF can survive OWS trimming), optional sign, 1*DIGIT */
@@ -212,7 +213,7 @@ void harness_framing(void)
 	} else if (vp_readbody_calls) {
 		if (vp_rb_chunked) {
 			VP_ASSERT(permitted & REF_BODY_CHUNKED, "C23: body read as chunked although the final transfer coding is not chunked");
-#if VP_HAS_TE && !VP_KF_ONLY
+#if VP_NUM_TE == 1 && !VP_KF_ONLY
 			VP_WITNESS("chunked body");
 #endif
 		} else {
@@ -227,6 +228,7 @@ void harness_framing(void)
 		VP_ASSERT(0, "C23: unexpected continuation (no Expect field, no size limit)");
 	}
 	VP_ASSERT(vp_continue_calls == 0, "C23: 100-continue without Expect");
+	VP_WITNESS("framing decision taken");
 #if VP_KF_ONLY
 	VP_WITNESS("known-finding region reached");
 #endif
